@@ -10,8 +10,6 @@ import (
 	"verifharness/internal/lp"
 )
 
-func init() { commands["C19"] = c19 }
-
 func c19ErrKind(err error) (string, uint64) {
 	switch {
 	case errors.Is(err, blockwise.ErrInvalidSZX):
@@ -31,7 +29,7 @@ func b2u(b bool) uint64 {
 	return 0
 }
 
-func c19(_ []string) {
+func main() {
 	lp.Loop(func(f []string, w *bufio.Writer) {
 		defer func() {
 			if r := recover(); r != nil {
